@@ -32,6 +32,40 @@ type Prog struct {
 	callers    map[*ssa.Function][]ssa.CallInstruction
 	uniqueSite map[*ssa.Function]ssa.CallInstruction
 	invokers   map[string][]ssa.CallInstruction // by method name
+
+	// Anchors: fingerprints of the functions the rule tables look up by name, recorded
+	// on the pinned tree (anchors.json). A function that is no longer found under its
+	// name is looked for by fingerprint (an unexported function may be renamed freely).
+	Anchors   map[string]AnchorPrint
+	Lookups   map[string]bool   // every name looked up in this run
+	Relocated map[string]string // anchor -> name it was found under
+}
+
+// AnchorPrint is what identifies an anchor function besides its name.
+type AnchorPrint struct {
+	Params  int      `json:"params"`
+	Results int      `json:"results"`
+	Callees []string `json:"callees"` // distinct callee ids (static and interface methods)
+}
+
+// Fingerprint computes the AnchorPrint of fn.
+func Fingerprint(fn *ssa.Function) AnchorPrint {
+	set := map[string]bool{}
+	for _, g := range WithClosures(fn) {
+		Instrs(g, func(in ssa.Instruction) {
+			if ci, ok := in.(ssa.CallInstruction); ok {
+				if id, ok := Callee(ci.Common()); ok && id.Pkg != "builtin" {
+					set[id.String()] = true
+				}
+			}
+		})
+	}
+	var cs []string
+	for k := range set {
+		cs = append(cs, k)
+	}
+	sort.Strings(cs)
+	return AnchorPrint{Params: len(fn.Params), Results: fn.Signature.Results().Len(), Callees: cs}
 }
 
 // Load loads every package of the module at dir. Any type error in a repo package is
@@ -179,6 +213,67 @@ func (p *Prog) File(pos token.Pos) string {
 // Func resolves a function or method. recv is "" for package-level functions, else the
 // receiver's named type (without '*'). Returns nil if missing.
 func (p *Prog) Func(pkg, recv, name string) *ssa.Function {
+	key := pkg + "|" + recv + "|" + name
+	if p.Lookups != nil {
+		p.Lookups[key] = true
+	}
+	if f := p.funcByName(pkg, recv, name); f != nil {
+		return f
+	}
+	return p.relocate(key, pkg, recv)
+}
+
+// relocate finds a renamed unexported anchor by its fingerprint: same package, same
+// receiver type, same arity, and — uniquely — at least 80% of the recorded callees.
+func (p *Prog) relocate(key, pkg, recv string) *ssa.Function {
+	fp, ok := p.Anchors[key]
+	if !ok || len(fp.Callees) < 2 {
+		return nil
+	}
+	full := pkg
+	if !strings.Contains(full, ".") {
+		full = ModPath + "/" + full
+	}
+	want := map[string]bool{}
+	for _, c := range fp.Callees {
+		want[c] = true
+	}
+	var best *ssa.Function
+	nBest := 0
+	for _, f := range p.FuncsIn(full) {
+		if f.Parent() != nil || (f.Object() != nil && f.Object().Exported()) {
+			continue
+		}
+		r := ""
+		if f.Signature.Recv() != nil {
+			r = namedName(deref(f.Signature.Recv().Type()))
+		}
+		if r != recv || len(f.Params) != fp.Params || f.Signature.Results().Len() != fp.Results {
+			continue
+		}
+		// still reachable under its recorded name? then it is not a rename target
+		hit := 0
+		for _, c := range Fingerprint(f).Callees {
+			if want[c] {
+				hit++
+			}
+		}
+		if hit*5 >= len(fp.Callees)*4 {
+			nBest++
+			best = f
+		}
+	}
+	if nBest != 1 {
+		return nil
+	}
+	if p.Relocated == nil {
+		p.Relocated = map[string]string{}
+	}
+	p.Relocated[key] = FuncName(best)
+	return best
+}
+
+func (p *Prog) funcByName(pkg, recv, name string) *ssa.Function {
 	if !strings.Contains(pkg, ".") {
 		pkg = ModPath + "/" + pkg
 	}
